@@ -187,7 +187,7 @@ def gc1(F, R):
                 R.bad("GC1", "GC1/%s/whole-slot-%s" % (fk, e.d.get("op", e.kind)), e.where(),
                       "whole-slot operation on the vertex store outside the constructor (%s)" % reason,
                       {"op": e.d.get("op", e.kind)})
-    R.floor("GC1", "group-tag field writes", n_tag, 6)
+    R.floor("GC1", "group-tag field writes", n_tag, 3)
     R.note("GC1: %d tag writes, %d whole-slot operations on Sodg::vertices examined over %d bodies"
            % (n_tag, n_slot, len(F.all_bodies())))
 
@@ -225,13 +225,18 @@ def merge_nontree_exempt(c, b):
         if owner_body(e.root_body()).path not in closure and e.body.path not in closure:
             return "called from outside merge(): %s" % fn_key(e.root_body())
         ok = False
+        caller = e.body
+        aux_params = [("param", i) for i in range(1, caller.arg_count + 1)
+                      if caller.locals[i]["ty"] != "usize" and "Sodg<" not in caller.locals[i]["ty"]]
         for f in e.facts:
             if f[0] == "cmp" and f[1] == "!=":
-                l, r = repr(strip_sites(f[2])), repr(strip_sites(f[3]))
-                has_kid = ("::kid'" in l) or ("::kid'" in r)
-                has_map = ("HashMap" in l and "::get'" in l) or ("HashMap" in r and "::get'" in r)
-                if has_kid and has_map:
-                    ok = True
+                sides = (strip_sites(f[2]), strip_sites(f[3]))
+                for x, y in (sides, sides[::-1]):
+                    has_kid = mentions(x, lambda z: z[0] == "call" and z[1].endswith("::kid"))
+                    # the other id comes from the right->left table the descent carries (whatever container it is)
+                    has_map = mentions(y, lambda z: z in aux_params) and not mentions(y, lambda z: z[0] == "call" and z[1].endswith("::kid"))
+                    if has_kid and has_map:
+                        ok = True
         if not ok:
             return "a call is not guarded by kid(left,a) != mapped[to]"
     return True
@@ -302,8 +307,14 @@ def gc2(F, R):
             R.bad("GC2", "GC2/Sodg::data/destroy-not-guarded-by-zero-count", e.where(),
                   "group destruction is not restricted to the unread counter having reached exactly 0 after this read",
                   detail)
-        if fa and fb and fc:
-            R.ok("GC2", e.where(), "removal guarded by first-read ∧ grouped ∧ counter==0 over the reader's member list",
+        ex = extra_guards(e.facts, lambda f: f in (fa, fb, fc) or (f[0] in ("in", "notin") and (is_pers_discr_of(f[1], reader) or is_tag_of(f[1], reader)))
+                          or (f[0] in ("in", "notin") and slot_of(strip_load(f[1]), "Sodg::stores") is not None), e.body)
+        if fa and fb and fc and ex:
+            R.bad("GC2", "GC2/Sodg::data/destroy-extra-condition", e.where(),
+                  "a member of the dying group is removed only under an additional condition (%s): part of the group survives its "
+                  "last unread datum" % ex, detail)
+        elif fa and fb and fc:
+            R.ok("GC2", e.where(), "removal guarded by exactly first-read ∧ grouped ∧ counter==0 over the reader's member list",
                  detail)
 
 
@@ -413,23 +424,35 @@ def gc4(F, R):
                   "counted for the group the vertex joins later (underflow at the read)", detail)
         # pre-state persistence was not Stored
         g2 = None
+        narrow = None
         for f in e.facts:
             if f[0] in ("in", "notin") and is_pers_discr_of(f[1], x):
-                if (f[0] == "notin" and "Stored" in f[2]) or (f[0] == "in" and "Stored" not in f[2]):
+                if (f[0] == "notin" and f[2] == frozenset(["Stored"])) or (f[0] == "in" and f[2] == frozenset(["Empty", "Taken"])):
                     # the tested value must be read before the Stored write
                     g2 = f
+                elif (f[0] == "notin" and "Stored" in f[2]) or (f[0] == "in" and "Stored" not in f[2]):
+                    narrow = f
         if g2 is not None:
             # pre-state: find the load this fact talks about; it must not be after a Stored write
             ok_pre = True
             for sub in walk(g2):
                 pass
             g2 = g2 if pers_fact_is_prestate(g2, body, stores) else None
-        if g2 is None:
+        if g2 is None and narrow is not None:
+            R.bad("GC4", "GC4/Sodg::put/inc-guard-narrower-than-unread-gain", e.where(),
+                  "put() counts the datum only for some of the not-Stored states (%s): a put on a vertex whose datum was already read "
+                  "(Taken) is not counted, the counter falls below the number of unread data and the group dies while a datum is "
+                  "unread" % show(narrow, e.body), detail)
+        elif g2 is None:
             R.bad("GC4", "GC4/Sodg::put/inc-not-guarded-by-unread-gain", e.where(),
                   "an overwriting put() (vertex already holds an unread datum) is counted again: the counter exceeds the "
                   "number of unread data and the group never dies", detail)
-        if g1 and g2:
-            R.ok("GC4", e.where(), "put-gain: counter of TAG(v) += 1 under grouped ∧ was-not-Stored", detail)
+        ex = extra_guards(e.facts, lambda f: (f[0] in ("in", "notin") and (is_pers_discr_of(f[1], x) or is_tag_of(f[1], x))), e.body)
+        if ex:
+            R.bad("GC4", "GC4/Sodg::put/inc-extra-condition", e.where(),
+                  "the put-gain is skipped under an additional condition (%s): some unread data are not counted" % ex, detail)
+        elif g1 and g2:
+            R.ok("GC4", e.where(), "put-gain: counter of TAG(v) += 1 under exactly grouped ∧ was-not-Stored", detail)
 
     # ---- data
     body = c.mut["data"]
@@ -453,7 +476,13 @@ def gc4(F, R):
             R.bad("GC4", "GC4/Sodg::data/dec-not-guarded-by-grouped", e.where(),
                   "reading an ungrouped vertex (tag 1) decrements the counter of reserved slot 1", detail)
         else:
-            R.ok("GC4", e.where(), "read-loss: counter of TAG(v) -= 1 in the first-read arm of a grouped vertex", detail)
+            ex = extra_guards(e.facts, lambda f: (f[0] in ("in", "notin") and (is_pers_discr_of(f[1], x) or is_tag_of(f[1], x))), e.body)
+            if ex:
+                R.bad("GC4", "GC4/Sodg::data/dec-extra-condition", e.where(),
+                      "the first read of a grouped vertex decrements the unread counter only under an additional condition (%s): the "
+                      "counter stays above the number of unread data (group never dies / slot handed back with a non-zero counter)" % ex, detail)
+            else:
+                R.ok("GC4", e.where(), "read-loss: counter of TAG(v) -= 1 in the first-read arm of a grouped vertex, no other condition", detail)
         # decrement happens on every path that records Taken for a grouped vertex: checked via co-domination
     for t in taken:
         # every Taken must be accompanied by a decrement on the grouped path
@@ -502,6 +531,24 @@ def gc4(F, R):
                   "bind() increments an unread counter that is not the carry-over of a joining vertex",
                   {"counter": show(e.loc, e.body), "guards": show_facts(e.facts, e.body)})
     # completeness the other way: every Stored write has a gain, every Taken a loss — done above
+
+
+def extra_guards(facts, allowed, body):
+    """guards other than the allowed ones (overflow asserts, logging and iterator protocol are never guards)"""
+    out = []
+    for f in facts:
+        if "Level" in repr(f) or "log::" in repr(f):
+            continue
+        if f[0] == "bool" and strip_load(f[1])[0] == "ovf":
+            continue
+        if f[0] == "in" and strip_load(f[1])[0] == "discr" and strip_load(strip_load(f[1])[1])[0] == "next":
+            continue
+        if f[0] == "const":
+            continue
+        if allowed(f):
+            continue
+        out.append(show(f, body))
+    return out
 
 
 def put_target(stores):
@@ -570,7 +617,7 @@ def gc5(F, R):
                   "member list changed by an operation other than push (bind) / clear (data): %s" % e.op)
         elif e.kind == "mem_write":
             R.bad("GC5", "GC5/%s/member-list-overwritten" % fk, e.where(), "member list slot overwritten")
-    R.floor("GC5", "member-list pushes", n_push, 4)
+    R.floor("GC5", "member-list pushes", n_push, 1)
     body = c.mut["bind"]
     evs = c.ev["bind"]
     joins = [e for e in evs if e.kind == "tag_write"]
@@ -621,8 +668,14 @@ def gc5(F, R):
                   "list on the same paths (it would survive its group, or be missed by the destruction loop)", detail)
         else:
             used.add(id(m))
-            if g is not None:
-                R.ok("GC5", j.where(), "join: tag(y) := g ⟺ push(g, y), y an endpoint, guarded by pre-state TAG(y) ∈ {1}", detail)
+            ex = extra_guards(j.facts, lambda f: (f[0] in ("in", "notin") and is_tag_of(f[1])) or
+                              (f[0] in ("bool", "in") and mentions(f, lambda x: x[0] == "call" and x[1].split("::")[-1] in ("is_empty", "len") and "microstack" in x[1])), j.body)
+            if g is not None and ex:
+                R.bad("GC5", "GC5/Sodg::bind/join-extra-condition/%s" % join_kind(j, body), j.where(),
+                      "an ungrouped endpoint joins the group only under an additional condition (%s): otherwise it stays "
+                      "ungrouped and is never collected" % ex, detail)
+            elif g is not None:
+                R.ok("GC5", j.where(), "join: tag(y) := g ⟺ push(g, y), y an endpoint, guarded by pre-state TAG(y) ∈ {1} and tags only", detail)
     for p in pushes:
         if id(p) not in used:
             R.bad("GC5", "GC5/Sodg::bind/push-without-join", p.where(),
